@@ -33,6 +33,10 @@ type Gpos5_1 struct {
 	LigArray  [][][]anchor.Table // indexed by (ligature coverage index, ligature component, mark class)
 }
 
+// maxLigatureWork bounds the total number of component records and anchor
+// offsets readGpos5_1 is willing to decode for one subtable.
+const maxLigatureWork = 1 << 20
+
 func readGpos5_1(p *parser.Parser, subtablePos int64) (Subtable, error) {
 	buf, err := p.ReadBytes(10)
 	if err != nil {
@@ -90,6 +94,7 @@ func readGpos5_1(p *parser.Parser, subtablePos int64) (Subtable, error) {
 	}
 
 	ligArray := make([][][]anchor.Table, ligCount)
+	totalWork := 0
 	for i := range ligArray {
 		ligAttachPos := ligArrayPos + int64(offsets[i])
 		err = p.SeekPos(ligAttachPos)
@@ -101,20 +106,49 @@ func readGpos5_1(p *parser.Parser, subtablePos int64) (Subtable, error) {
 		if err != nil {
 			return nil, err
 		}
-		ligAttach := make([][]anchor.Table, componentCount)
+		numOffsets := uint(componentCount) * uint(markClassCount)
+		if numOffsets > (65536-6-2)/2 {
+			// Offsets are 16-bit from ligAttachPos, and there must still be
+			// space for at least one achor table.
+			return nil, &parser.InvalidFontError{
+				SubSystem: "sfnt/opentype/gtab",
+				Reason:    "GPOS5.1 table too large",
+			}
+		}
+		// LigatureAttach tables can be shared between ligatures (or aliased
+		// in damaged fonts): bound the total number of component records and
+		// anchor offsets, so that a small table cannot request gigabytes.
+		totalWork += int(componentCount) + int(numOffsets)
+		if totalWork > maxLigatureWork {
+			return nil, &parser.InvalidFontError{
+				SubSystem: "sfnt/opentype/gtab",
+				Reason:    "GPOS5.1 table too large",
+			}
+		}
+		// Array of component records: for each component, one offset per
+		// mark class, from the beginning of the LigatureAttach table.
+		compOffsets := make([]uint16, numOffsets)
+		for k := range compOffsets {
+			compOffsets[k], err = p.ReadUint16()
+			if err != nil {
+				return nil, err
+			}
+		}
 
-		for j := 0; j < int(componentCount); j++ {
+		ligAttach := make([][]anchor.Table, componentCount)
+		for j := range ligAttach {
 			row := make([]anchor.Table, markClassCount)
-			for j := range row {
-				if offsets[j] == 0 {
+			for k := range row {
+				if compOffsets[k] == 0 {
 					continue
 				}
-				row[j], err = anchor.Read(p, ligAttachPos+int64(offsets[j]))
+				row[k], err = anchor.Read(p, ligAttachPos+int64(compOffsets[k]))
 				if err != nil {
 					return nil, err
 				}
 			}
-			ligAttach[i] = row
+			ligAttach[j] = row
+			compOffsets = compOffsets[markClassCount:]
 		}
 
 		ligArray[i] = ligAttach
